@@ -27,25 +27,25 @@ def make_data(rnd, tkind, K, n, S=3, kind='SNR'):
 def sweep(seed, tier, kinds=('SNR', 'ANOVA', 'TB')):
     rnd = random.Random(seed); fails = []; ev = 0
     if tier == 'quick': kinds = tuple(k for k in kinds if k != 'ANOVA')
-    batches = [7, 1, 12]
-    for kind in kinds:
-        for K in (((3, 9, 10) if tier != 'quick' else (3, 10)) if kind != 'TB' else ((3, 6) if tier != 'quick' else (3,))):
-            for tkind in (('int', 'f32', 'f32off', 'f64off') if tier != 'quick' else ('int', 'f32off')):
-                X, Y = make_data(rnd, tkind, K, sum(batches), kind=kind)
-                for prec in ('float32', 'float64'):
-                    ref = None
-                    seqs = list(itertools.product((1, 2), repeat=3))
-                    for seq in (seqs if tier != 'quick' else [seqs[0], seqs[-1], seqs[3]]):
-                        for th in ((1, 16) if tier == 'quick' else (1, 3, 16)):
-                            ev += 1
-                            try: out = run(kind, K, X, Y, batches, seq, prec, th)
-                            except Exception as e: fails.append(dict(dist=kind, K=K, detail='raises %r' % (e,))); continue
-                            if ref is None: ref = out; continue
-                            exact = tkind in ('int', 'f32')          # all sums exactly representable in both precisions: results must be identical
-                            if prec == 'float32' and not exact: continue     # float32 accumulation of offset data: differences are rounding of the requested precision amplified by cancellation
-                            for a, b in zip(ref, out):
-                                if exact and not np.array_equal(a, b, equal_nan=True): fails.append(dict(dist=kind, K=K, traces=tkind, precision=prec, seq=seq, threads=th, detail='exactly representable sums: results not identical (max diff %r)' % float(np.nanmax(np.abs(a - b))))); break
-                                if not exact and not np.allclose(a, b, equal_nan=True, rtol=1e-6, atol=1e-9): fails.append(dict(dist=kind, K=K, traces=tkind, precision=prec, seq=seq, threads=th, detail='kernel sequence / thread count changes the float64 result beyond rounding (max diff %r)' % float(np.nanmax(np.abs(a - b))))); break
+    for batches in ([7, 1, 12], [3, 3, 3, 3]):      # the second layout repeats one batch geometry with so few traces that classes are absent from some batches
+      for kind in kinds:
+          for K in (((3, 9, 10) if tier != 'quick' else (3, 10)) if kind != 'TB' else ((3, 6) if tier != 'quick' else (3,))):
+              for tkind in (('int', 'f32', 'f32off', 'f64off') if tier != 'quick' else ('int', 'f32off')):
+                  X, Y = make_data(rnd, tkind, K, sum(batches), kind=kind)
+                  for prec in ('float32', 'float64'):
+                      ref = None
+                      seqs = list(itertools.product((1, 2), repeat=len(batches)))
+                      for seq in (seqs if tier != 'quick' else [seqs[0], seqs[-1], seqs[3]]):      # all-1, all-2 (consecutive kernel-2 batches), mixed
+                          for th in ((1, 16) if tier == 'quick' else (1, 3, 16)):
+                              ev += 1
+                              try: out = run(kind, K, X, Y, batches, seq, prec, th)
+                              except Exception as e: fails.append(dict(dist=kind, K=K, detail='raises %r' % (e,))); continue
+                              if ref is None: ref = out; continue
+                              exact = tkind in ('int', 'f32')          # all sums exactly representable in both precisions: results must be identical
+                              if prec == 'float32' and not exact: continue     # float32 accumulation of offset data: differences are rounding of the requested precision amplified by cancellation
+                              for a, b in zip(ref, out):
+                                  if exact and not np.array_equal(a, b, equal_nan=True): fails.append(dict(dist=kind, K=K, traces=tkind, precision=prec, seq=seq, threads=th, detail='exactly representable sums: results not identical (max diff %r)' % float(np.nanmax(np.abs(a - b))))); break
+                                  if not exact and not np.allclose(a, b, equal_nan=True, rtol=1e-6, atol=1e-9): fails.append(dict(dist=kind, K=K, traces=tkind, precision=prec, seq=seq, threads=th, detail='kernel sequence / thread count changes the float64 result beyond rounding (max diff %r)' % float(np.nanmax(np.abs(a - b))))); break
     return ev, fails
 
 def replay(case):
@@ -54,7 +54,7 @@ def replay(case):
 
 def bounded(seed, tier):
     ev, fails = sweep(seed, tier)
-    return dict(evaluations=ev, failures=len(fails), failing=fails[:5], exhaustive=(tier != 'quick'), bound='%s kernel sequences over batches 7/1/12, threads 1..16, class counts 3/9/10, int16 / float32 / float32+offset / float64+offset, both precisions' % ('all 2^3' if tier != 'quick' else '3 of 2^3'))
+    return dict(evaluations=ev, failures=len(fails), failing=fails[:5], exhaustive=(tier != 'quick'), bound='%s kernel sequences over batches 7/1/12 and 3/3/3/3 (repeated geometry, classes absent from some batches), threads 1..16, class counts 3/9/10, int16 / float32 / float32+offset / float64+offset, both precisions' % ('all 2^3' if tier != 'quick' else '3 of 2^3'))
 
 if __name__ == '__main__':
     cmd = sys.argv[1]
